@@ -60,6 +60,9 @@ def pack_part(ctx):
         for v in (7, 12, 0, 99):
             for a in (10, 13, 0, 7):
                 put({"kind": "psi", "cc": 0, "v": v, "a": a, "frames": []})
+        # the tables a stream was handed stay its own when a stream with other codecs starts afterwards
+        for (v, a, v2, a2) in ((7, 10, 12, 13), (12, 13, 7, 10), (7, 13, 12, 10), (12, 10, 7, 10)):
+            put({"kind": "psi2", "cc": 0, "v": v, "a": a, "v2": v2, "a2": a2, "frames": []})
     E.run_driver(ctx, "ts", sp, tp)
     ctx.cov["traces_validated_against_impl"] = nscen
     ctx.cov["evaluations"] = nframes + 32
